@@ -44,7 +44,7 @@ def mini_spec(spec, i, exclude=()):
     op = spec["ops"][i]
     if op["op"] == "new":
         ops = [_norm(op, "self")]
-    elif op["op"] in ("call", "cfg"):
+    elif op["op"] in ("call", "cfg", "aux"):
         ops = object_chain(spec, op["obj"], i, exclude) + [_norm(op, "self")]
     else:
         return None
@@ -145,7 +145,7 @@ def judge_c06(spec, hist, refs):
             inv = "H3" if ev[0] == "input-modified" else "H2"
             viol.append({"inv": inv, "step": i, "cls": short_cls(_cls_of(spec, op)), "fam": op.get("fam", ""),
                          "detail": {"event": ev[0], "id": ev[1], "during": op["op"]}})
-        if op["op"] not in ("new", "call", "cfg") or i in faulted:
+        if op["op"] not in ("new", "call", "cfg", "aux") or i in faulted:
             continue
         if op.get("obj") in tainted:
             continue
@@ -468,6 +468,22 @@ def judge_c05(spec, hist, refs):
     for op in spec["ops"]:
         if op["op"] == "call":
             sol_owner[op["sol"]] = op
+    # I1 (any N): generic in-region requests of one object at one time are all served or all refused
+    generic = {}
+    for rec in hist["log"]:
+        op = spec["ops"][rec["i"]]
+        if op["op"] == "call" and op.get("generic") and rec["i"] not in faulted and rec["out"][0] in ("ok", "exc"):
+            generic.setdefault((op["obj"], op["t"]), []).append((rec["i"], op, rec["out"]))
+    for (oid, t), lst in generic.items():
+        full = [x for x in lst if x[1].get("generic") == 40]
+        stats["i1_generic_size_groups"] = stats.get("i1_generic_size_groups", 0) + 1
+        if not full or full[0][2][0] != "ok":
+            continue
+        excs = [x for x in lst if x[2][0] == "exc" and x[1].get("generic") != 40]
+        if excs:
+            i, op, out = excs[0]
+            n_bad, n_ok = op.get("generic"), 40
+            add("I1", i, op, {"kind": "request-size-refused", "n_refused": n_bad, "n_served": n_ok, "exc": list(out[1:3])})
     for rec in hist["log"]:
         i = rec["i"]
         op = spec["ops"][i]
